@@ -277,7 +277,7 @@ func vJitter() {
 }
 func vMonC(class int, f func()) { vMon(f) }
 func vBlockUntil(f func() bool) {
-	deadline := time.Now().Add(3 * time.Second)
+	deadline := time.Now().Add(1500 * time.Millisecond)
 	for {
 		vmonMu.Lock()
 		ok := f()
@@ -287,9 +287,11 @@ func vBlockUntil(f func() bool) {
 		}
 		if time.Now().After(deadline) {
 			vmu.Lock()
-			vout.Fail = "vBlockUntil timed out"
+			if vout.Fail == "" {
+				vout.Fail = "vBlockUntil timed out: the awaited condition never became true (deadlock)"
+			}
 			vmu.Unlock()
-			panic(vAssumeFailed{})
+			select {} // stay blocked; the replay watchdog reports
 		}
 		time.Sleep(200 * time.Microsecond)
 	}
